@@ -215,21 +215,8 @@ func c30DropBracketSpace(text string) string {
 	return sb.String()
 }
 
-// c30NormBlock strips the leading blanks of the interior lines of a block comment (the printer re-indents a
-// multi-line block comment that it moves to a line of its own).
-func c30NormBlock(c string) string {
-	lines := strings.Split(c, "\n")
-	for i := 1; i < len(lines); i++ {
-		lines[i] = strings.TrimLeft(lines[i], " \t")
-	}
-	for i := range lines {
-		lines[i] = strings.TrimRight(lines[i], " \t\r")
-	}
-	return strings.Join(lines, "\n")
-}
-
 // c30DropAllSpace removes every whitespace token (and the line end that terminates a line comment): what is
-// left is the exact sequence of tokens and comments.
+// left is the exact sequence of tokens and comments, the comments byte for byte.
 func c30DropAllSpace(text string) string {
 	toks, err := ref.Tokenize(text)
 	if err != nil {
@@ -243,7 +230,7 @@ func c30DropAllSpace(text string) string {
 			sb.WriteString(strings.TrimRight(tk.Text, "\r\n"))
 			sb.WriteString("\n")
 		case ref.BlockComment:
-			sb.WriteString(c30NormBlock(tk.Text))
+			sb.WriteString(tk.Text)
 		default:
 			sb.WriteString(tk.Text)
 		}
@@ -274,7 +261,7 @@ func c30CommentBag(text string) string {
 	var cs []string
 	for _, tk := range toks {
 		if tk.Kind == ref.LineComment || tk.Kind == ref.BlockComment {
-			cs = append(cs, c30NormBlock(strings.TrimRight(tk.Text, "\r\n")))
+			cs = append(cs, strings.TrimRight(tk.Text, "\r\n"))
 		}
 	}
 	sort.Strings(cs)
